@@ -108,6 +108,18 @@ let parse_op params toks =
           | [] -> failwith "emplace") params in
         OpEmplace (nat_of_int s, vals)
       | _ -> failwith "emplace")
+  | "emplaceat" :: r ->
+      (match ints r with s :: pos :: rest ->
+        let rest = ref rest in
+        let vals = List.map (fun p ->
+          match !rest with
+          | nobj :: r ->
+              rest := r;
+              let sz = int_of_z p.psz in
+              List.init nobj (fun _ -> let (o, r) = take sz !rest in rest := r; List.map z_of_int o)
+          | [] -> failwith "emplaceat") params in
+        OpEmplaceAt (nat_of_int s, z_of_int pos, vals)
+      | _ -> failwith "emplaceat")
   | "popback" :: [s] -> OpPopBack (nat s)
   | "erase" :: [s; i] -> OpErase (nat s, z i)
   | "eraserange" :: [s; i; j] -> OpEraseRange (nat s, z i, z j)
